@@ -86,6 +86,21 @@ FAULTS = [("notleader", {"kind": "err", "code": 6}), ("lna", {"kind": "err", "co
           ("missing", {"kind": "missing"}), ("move", {"kind": "ok", "moveTo": 2}), ("throttled_data", {"kind": "throttled_data"})]
 
 
+def follower_scenarios(logs, rnd, nlogs, family="follower"):
+    """follower fetching (Kafka >= 2.3, Config.RackID set): the leader answers with no records and a preferred read replica, which
+    holds the log; the replica may be broker id 0"""
+    out = []
+    for i, log in enumerate(logs[:nlogs]):
+        for leader, follower in ((2, 1), (1, 2)):
+            for base0 in (True, False):
+                lg = add_codec(log, rnd)
+                cfg = dict(version=rnd.choice(["2.3.0", "2.4.0", "2.6.0", "2.8.0"]), iso="ru", fetchDefault=rnd.choice([130, 1 << 20]), chanBuf=rnd.choice([0, 1]),
+                           leaders=[leader], followers=[follower], rack="r1", nbrokers=2, idBase0=base0)
+                out.append({"name": "%s-%d-l%d-%s" % (family, i, leader, "id0" if base0 else "id1"), "family": family, "cfg": cfg, "logs": {"0": lg},
+                            "consume": [{"part": 0, "start": rnd.choice([0, -2])}], "expectAll": {"0": True}, "steps": []})
+    return out
+
+
 def quota_scenarios(logs, rnd, nlogs, family="quota"):
     """a broker that enforces a quota: EVERY fetch response of partition 0 carries a throttle time together with its data"""
     out = []
